@@ -26,6 +26,8 @@ static const char* names[] = {
     "adder: two counting threads || reading thread (bounded read)",
     "history of 4 steps chosen from {count on A, count on A and B, re-create B, move A} with a check after every step",
     "adder moved while empty and while holding counts",
+    "instance churn across threads: one thread destroys a used counter || another constructs, counts on and reads a new one",
+    "enumerable thread local moved (assignment and construction) by a thread that has used both instances before: local() and for_each follow the storage",
 };
 int harness_configs() { return sizeof(names) / sizeof(names[0]); }
 const char* harness_config_name(int c) { return names[c]; }
@@ -156,6 +158,33 @@ void harness_main(int cfg) {
         }
         bbmc::check(a->value() == ea && b->value() == eb, "after a history of counting / re-creation / move an adder does not report the exact sum");
       }
+      break;
+    }
+    case 10: {
+      // the new counter may be given the identity (instance id, cache-line offset) the dying one releases
+      std::unique_ptr<ConcurrentAdder> a(new ConcurrentAdder); ConcurrentSummer* sm = new ConcurrentSummer;
+      *a << 5; *sm << 9;
+      int first = -1, after = -1; long ssum = -1, scount = -1;
+      std::thread t1([&] { a.reset(); delete sm; });
+      std::thread t2([&] { ConcurrentAdder b; first = (int)b.value(); b << 1; b << 1; after = (int)b.value(); ConcurrentSummer s2; s2 << 3; auto v = s2.value(); ssum = v.sum; scount = (long)v.num; });
+      t1.join(); t2.join();
+      bbmc::check(first == 0, "a counter constructed while another one is being destroyed does not start from zero");
+      bbmc::check(after == 2, "a counter constructed while another one is being destroyed lost (or gained) counts");
+      bbmc::check(ssum == 3 && scount == 1, "a summer constructed while another one is being destroyed is not exact");
+      break;
+    }
+    case 11: {
+      EnumerableThreadLocal<int> a, b;
+      a.local() = 1; b.local() = 2; a.local() += 10;                       // this thread's lookup cache has seen both
+      auto sum = [](EnumerableThreadLocal<int>& e) { int t = 0; e.for_each([&](int* i, int* end) { for (; i != end; ++i) t += *i; }); return t; };
+      a = std::move(b);                                                    // a now owns the storage that holds 2
+      bbmc::check(a.local() == 2, "after a move assignment local() still returns the slot of the storage that was moved away");
+      a.local() += 100;
+      bbmc::check(sum(a) == 102, "a value written through local() after a move is not what for_each of the same instance reports");
+      EnumerableThreadLocal<int> c(std::move(a));
+      bbmc::check(c.local() == 102 && sum(c) == 102, "a move-constructed instance does not see the counts of its source");
+      a.local() = 7;                                                       // the moved-from instance is a fresh one
+      bbmc::check(sum(a) == 7 && sum(c) == 102, "a moved-from instance writes into the storage it gave away");
       break;
     }
     case 9: {
